@@ -125,6 +125,9 @@ type Options struct {
 	HeapProfileTriggerBytes uint64
 }
 
+// defaultTrigramMax is the default of Options.TrigramMax.
+const defaultTrigramMax = 20000
+
 // HashOptions contains only the options in Options that upon modification leads to IndexState of IndexStateMismatch during the next index building.
 type HashOptions struct {
 	sizeMax          int
@@ -132,6 +135,7 @@ type HashOptions struct {
 	ctagsPath        string
 	cTagsMustSucceed bool
 	largeFiles       []string
+	trigramMax       int
 }
 
 func (o *Options) HashOptions() HashOptions {
@@ -141,6 +145,7 @@ func (o *Options) HashOptions() HashOptions {
 		ctagsPath:        o.CTagsPath,
 		cTagsMustSucceed: o.CTagsMustSucceed,
 		largeFiles:       o.LargeFiles,
+		trigramMax:       o.TrigramMax,
 	}
 }
 
@@ -153,6 +158,12 @@ func (o *Options) GetHash() string {
 	hasher.Write(fmt.Appendf(nil, "%d", h.sizeMax))
 	hasher.Write(fmt.Appendf(nil, "%q", h.largeFiles))
 	hasher.Write(fmt.Appendf(nil, "%t", h.disableCTags))
+	// TrigramMax decides which documents are skipped. It only contributes
+	// when it differs from the default, so that indexes built with the default
+	// keep their hash and are not all re-indexed.
+	if h.trigramMax != 0 && h.trigramMax != defaultTrigramMax {
+		hasher.Write(fmt.Appendf(nil, "trigramMax=%d", h.trigramMax))
+	}
 
 	return fmt.Sprintf("%x", hasher.Sum(nil))
 }
@@ -330,7 +341,7 @@ func (o *Options) SetDefaults() {
 		o.ShardMax = 100 << 20
 	}
 	if o.TrigramMax == 0 {
-		o.TrigramMax = 20000
+		o.TrigramMax = defaultTrigramMax
 	}
 
 	if o.RepositoryDescription.Name == "" && o.RepositoryDescription.URL != "" {
